@@ -28,21 +28,29 @@ struct Dns : network::DnsRequest {
 };
 
 // Outgoing datagrams never reach the network: sendto() is defined by the harness executable.
-struct Sent { Bytes data; uint32_t ip; uint16_t port; };
+// g_sent records every ATTEMPT. g_tx_fail_mask: bit s set = the kernel refuses datagrams to the server whose address ends in
+// .(s+1) (-1 / ENETUNREACH), as when that server has no route.
+struct Sent { Bytes data; uint32_t ip; uint16_t port; bool failed; };
 static std::vector<Sent> g_sent;
 static bool g_keep_sent = false;
+static unsigned g_tx_fail_mask = 0;
 extern "C" ssize_t sendto(int, const void *buf, size_t n, int, const struct sockaddr *to, socklen_t) {
+  bool refuse = false;
+  if (to && to->sa_family == AF_INET && g_tx_fail_mask) { auto *in = (const struct sockaddr_in *)to; unsigned last = ((const uint8_t *)&in->sin_addr.s_addr)[3]; refuse = last >= 1 && last <= 8 && (g_tx_fail_mask >> (last - 1) & 1); }
   if (g_keep_sent && g_sent.size() < 64) {
-    Sent s; s.data.assign((const uint8_t *)buf, (const uint8_t *)buf + n); s.ip = 0; s.port = 0;
+    Sent s; s.data.assign((const uint8_t *)buf, (const uint8_t *)buf + n); s.ip = 0; s.port = 0; s.failed = refuse;
     if (to && to->sa_family == AF_INET) { auto *in = (const struct sockaddr_in *)to; s.ip = in->sin_addr.s_addr; s.port = ntohs(in->sin_port); }
     g_sent.push_back(s);
   }
+  if (refuse) { errno = ENETUNREACH; return -1; }
   return (ssize_t)n;
 }
 
 // Incoming datagrams through the REAL receive path: the harness calls UdpSocket::onSocketEvent(kReadEvent) (what the loop
 // does when the descriptor is readable) and the executable's own recvfrom() plays the kernel: it hands out the queued
-// datagram (copying at most `len` bytes, like UDP), or 0 (empty datagram), or -1/EAGAIN. The rest of the caller's
+// datagram like Linux UDP does - it copies at most `len` bytes and returns the number copied, or, when the caller passes
+// MSG_TRUNC, the REAL length of the datagram even if that is more than `len` (queued datagrams may be longer than any buffer) -,
+// or 0 (empty datagram), or -1 with errno g_rx_errno (EAGAIN / EINTR / ECONNREFUSED). The rest of the caller's
 // buffer is left untouched (= whatever the dead stack held: the painted value) and, in the ASan build, poisoned for the
 // duration of the call, so that reading more than `rsize` bytes is a report and not only a paint difference.
 #if defined(__SANITIZE_ADDRESS__)
@@ -51,19 +59,21 @@ extern "C" void __asan_unpoison_memory_region(void const volatile *, size_t);
 #endif
 enum RxMode { RX_REAL = 0, RX_DATAGRAM, RX_ZERO, RX_ERROR };
 static int g_rx_mode = RX_REAL; static const uint8_t *g_rx_data = nullptr; static size_t g_rx_size = 0; static uint32_t g_rx_from_ip = 0;
+static int g_rx_errno = EAGAIN; static size_t g_rx_last_len = 0;   // buffer size the code under test offered
 static int g_rx_calls = 0; static void *g_rx_poison = nullptr; static size_t g_rx_poison_len = 0;
 extern "C" ssize_t recvfrom(int fd, void *buf, size_t len, int flags, struct sockaddr *addr, socklen_t *alen) {
   if (g_rx_mode == RX_REAL) return (ssize_t)syscall(SYS_recvfrom, fd, buf, len, flags, addr, alen);
-  g_rx_calls++;
-  if (g_rx_mode == RX_ERROR) { errno = EAGAIN; return -1; }
+  g_rx_calls++; g_rx_last_len = len;
+  if (g_rx_mode == RX_ERROR) { errno = g_rx_errno; return -1; }
   size_t n = g_rx_mode == RX_ZERO ? 0 : (g_rx_size < len ? g_rx_size : len);
   if (n) memcpy(buf, g_rx_data, n);
   if (addr && alen && *alen >= sizeof(struct sockaddr_in)) { struct sockaddr_in in; memset(&in, 0, sizeof in); in.sin_family = AF_INET; in.sin_port = htons(53); in.sin_addr.s_addr = g_rx_from_ip; memcpy(addr, &in, sizeof in); *alen = sizeof in; }
 #if defined(__SANITIZE_ADDRESS__)
   if (len > n) { g_rx_poison = (uint8_t *)buf + n; g_rx_poison_len = len - n; __asan_poison_memory_region(g_rx_poison, g_rx_poison_len); }
 #endif
-  return (ssize_t)n;
+  return (ssize_t)((flags & MSG_TRUNC) && g_rx_mode == RX_DATAGRAM ? g_rx_size : n);
 }
+static const size_t kRecvBuf = 4096;       // UdpSocket's receive buffer (RECV_BUFF_SIZE): what a datagram longer than this is judged as = its prefix
 // one readable event on the DNS socket with the given kernel behaviour; returns the number of recvfrom() calls made
 static inline int socket_event(network::DnsRequest *d, int mode, const uint8_t *p, size_t n, uint32_t from_ip_net) {
   g_rx_mode = mode; g_rx_data = p; g_rx_size = n; g_rx_from_ip = from_ip_net; g_rx_calls = 0;
